@@ -95,6 +95,7 @@ inductive Expr
   | listcomp (body : Expr) (quals : List Qual) (ty : Ty)
   | range (bounds : List Expr)               -- `[f1 .. t1, f2 .. t2]`: bounds = f1, t1, f2, t2 (source order)
   | slice (a : Expr) (bounds : List Expr)    -- `a[f1 .. t1, …]` on an array, a slice, a range or a string
+  | pipe (l : Expr) (f : Expr) (args : List Expr)   -- `l |> f(args)` = `f(l, args)`; a tuple `l` is unpacked
 inductive Item
   | bind (isVar : Bool) (x : Name) (e : Expr)
   | funcs (fs : List Func)                   -- a maximal run of consecutive function items
@@ -177,6 +178,7 @@ def fvE (bound : List Name) (acc : List Name) : Expr → List Name
   | .for i c s b => fvE bound (fvE bound (fvE bound (fvE bound acc i) c) s) b
   | .forIn x coll b => fvE (x :: bound) (fvE bound acc coll) b
   | .call f args => fvE bound (fvEs bound acc args) f
+  | .pipe l f args => fvE bound (fvE bound (fvEs bound acc args) l) f
   | .builtin _ args | .arrLit _ args _ | .arrNew args _ | .record _ args | .tuple args
   | .enumRec _ _ args | .range args => fvEs bound acc args
   | .lam fn => fvF bound acc fn
@@ -787,6 +789,17 @@ def sliceDimVals : List (Int × Int) → List Int
   | [] => []
   | (a, b) :: rest => 0 :: (if b > a then b - a else a - b) :: sliceDimVals rest
 
+/-- the leading arguments a piped value contributes: a tuple is unpacked into its component CELLS (`RECORD_UNPACK`),
+anything else is one argument -/
+def pipeArgs (l : Loc) : M (List Loc) := do
+  match (← load l) with
+  | .rcd (some o) =>
+    match (← load o) with
+    | .recObj tag fields => if tag = "" then pure fields.toList else pure [l]
+    | _ => stuck "record reference to a non-record"
+  | .rcd none => stopM (.crash "pipe of nil: a nil tuple raises nil_pointer, a nil record is passed on; the value does not say which")
+  | _ => pure [l]
+
 /-! ### declarations context -/
 
 /-- a function of the program as `callClo` needs it: the static name stack at its definition
@@ -1041,6 +1054,15 @@ def evalE : Nat → Ctx → Env → Expr → M Loc
       let lf ← evalE f ctx env fe
       match (← load lf) with
       | .clo (some (fid, cells)) => callClo f ctx fid cells ls
+      | .clo none => throwE .nil_pointer
+      | _ => stuck "call of a non-function"
+    | .pipe l fe args => do
+      let ls ← evalArgs f ctx env args
+      let ll ← evalE f ctx env l
+      let first ← pipeArgs ll
+      let lf ← evalE f ctx env fe
+      match (← load lf) with
+      | .clo (some (fid, cells)) => callClo f ctx fid cells (first ++ ls)
       | .clo none => throwE .nil_pointer
       | _ => stuck "call of a non-function"
     | .builtin b args => do
@@ -1381,6 +1403,7 @@ def collectE (bs : List Name) : Expr → List FunEntry
   | .for i c s b => collectE bs i ++ collectE bs c ++ collectE bs s ++ collectE bs b
   | .forIn x coll b => collectE bs coll ++ collectE (x :: bs) b
   | .call f args => collectEs bs args ++ collectE bs f
+  | .pipe l f args => collectEs bs args ++ collectE bs l ++ collectE bs f
   | .builtin _ args | .arrLit _ args _ | .arrNew args _ | .record _ args | .tuple args
   | .enumRec _ _ args | .range args => collectEs bs args
   | .lam fn => collectF (if fn.name = "" then bs else fn.name :: bs) fn
